@@ -81,7 +81,7 @@ def run_property(prop_id, tier="quick", seed=0, only=None, jobs=None, keep_going
         if res.canary_ok is None:
             verdict["undecided"].append("%s: no vacuity canary in harness" % proof.name)
             continue
-        if res.unknown:
+        if res.unknown and not res.failed:
             verdict["undecided"].append("%s: solver returned unknown for %d obligations" % (proof.name, len(res.unknown)))
             continue
         if res.n_obligations == 0:
@@ -95,8 +95,9 @@ def run_property(prop_id, tier="quick", seed=0, only=None, jobs=None, keep_going
         contracts = dict(mod.contracts)
         if proof.contracts:
             contracts.update(proof.contracts)
+        live = {p["function"] for p in res.props} | {p["name"].split(".")[0] for p in res.props}
         for fn in out.get("functions", []):
-            if fn["role"] != "replaced-by-contract":
+            if fn["role"] != "replaced-by-contract" and fn["c_name"] in live:
                 nloops_with_contract += len(contracts.get(fn["c_name"], {}).get("loops", {}))
         nstep = len({p["name"] for p in res.props if "loop_invariant_step" in p["name"] or "loop_step" in p["name"]})
         if proof.loop_contracts and nloops_with_contract and nstep == 0:
